@@ -104,3 +104,14 @@ func verifLemmaClockCompare(a, b, c iface.IPFSLogEntry) (int, int, int, int) {
 //@ func NoZeroes$1
 //@   requires deref(compFunc) != nil
 //@   ensures [never-zero-without-error] err == nil ==> result0 != 0
+
+// Sort delegates to sort.SliceStable (outside the module): its contract is assumed, not proved.
+// It permutes the slice in place; nothing else changes.
+//@ func Sort
+//@   trusted
+//@   modifies elems(values)
+//@   witness perm(Int) Int
+//@   witness inv(Int) Int
+//@   ensures forall j int :: 0 <= j && j < len(values) ==> 0 <= inv(j) && inv(j) < len(values) && values[inv(j)] == old(values[j])
+//@   ensures forall i int :: 0 <= i && i < len(values) ==> 0 <= perm(i) && perm(i) < len(values) && values[i] == old(values[perm(i)])
+//@   ensures forall i int, j int :: 0 <= i && i < j && j < len(values) ==> perm(i) != perm(j)
